@@ -92,22 +92,35 @@ Definition ostrs (o : option (list string)) : json :=
 Definition omap (o : option (list (string * string))) : json :=
   match o with Some l => JObj (map (fun kv => (fst kv, JStr (snd kv))) l) | None => JNull end.
 
-(* config.rs:216 the json! literal; the two naming-convention settings are not written *)
+(* config.rs:216 the json! literal *)
 Definition typegen_json (c : config) : json := JObj [
   ("projectPath", JStr (project_path c)); ("outputPath", JStr (output_path c));
   ("validationLibrary", JStr (validation_library c));
   ("verbose", ob (verbose c)); ("visualizeDeps", ob (visualize_deps c));
   ("includePrivate", ob (include_private c)); ("typeMappings", omap (type_mappings c));
   ("excludePatterns", ostrs (exclude_patterns c)); ("includePatterns", ostrs (include_patterns c));
-  ("force", ob (force c)) ].
+  ("force", ob (force c));
+  ("defaultParameterCase", JStr (default_parameter_case c)); ("defaultFieldCase", JStr (default_field_case c)) ].
 
-(* config.rs:230-246 save_to_tauri_config on the parsed document *)
-Definition save_doc (c : config) (doc : json) : json :=
-  let root := match doc with JObj kvs => kvs | _ => [] end in          (* non-object root is replaced by {} *)
-  let root := match lookup "plugins" root with Some _ => root | None => insert "plugins" (JObj []) root end in
-  match lookup "plugins" root with
-  | Some (JObj p) => JObj (insert "plugins" (JObj (insert "typegen" (typegen_json c) p)) root)
-  | _ => JObj root                                                    (* plugins is not an object: nothing inserted *)
+(* config.rs save_to_tauri_config on the parsed document: None = refused with
+   ConfigError::InvalidConfig before anything is written (the root is not an object, or
+   plugins exists and is not an object); plugins is created when absent *)
+Definition save_doc (c : config) (doc : json) : option json :=
+  match doc with
+  | JObj kvs =>
+      let root := match lookup "plugins" kvs with Some _ => kvs | None => insert "plugins" (JObj []) kvs end in
+      match lookup "plugins" root with
+      | Some (JObj p) => Some (JObj (insert "plugins" (JObj (insert "typegen" (typegen_json c) p)) root))
+      | _ => None
+      end
+  | _ => None
+  end.
+
+(* the documents the settings can be written into *)
+Definition saveable (doc : json) : bool :=
+  match doc with
+  | JObj kvs => match lookup "plugins" kvs with Some (JObj _) | None => true | Some _ => false end
+  | _ => false
   end.
 
 Definition as_str (j : option json) : option string := match j with Some (JStr s) => Some s | _ => None end.
@@ -130,8 +143,8 @@ Definition config_of_section (tg : json) : config :=
      type_mappings := match f "typeMappings" with Some (JObj l) => all_str_vals l | _ => None end;
      exclude_patterns := match f "excludePatterns" with Some (JArr l) => all_strs l | _ => None end;
      include_patterns := match f "includePatterns" with Some (JArr l) => all_strs l | _ => None end;
-     default_parameter_case := default_parameter_case dflt;
-     default_field_case := default_field_case dflt;
+     default_parameter_case := or_else (as_str (f "defaultParameterCase")) (default_parameter_case dflt);
+     default_field_case := or_else (as_str (f "defaultFieldCase")) (default_field_case dflt);
      force := match as_bool (f "force") with Some b => Some b | None => force dflt end |}.
 
 (* config.rs:135-136 from_tauri_config before validate: None when there is no section *)
@@ -146,21 +159,6 @@ Definition normalise (c : config) : config :=
      type_mappings := type_mappings c; exclude_patterns := exclude_patterns c; include_patterns := include_patterns c;
      default_parameter_case := default_parameter_case c; default_field_case := default_field_case c;
      force := nb (force c) |}.
-
-(* ---------------------------------------------------------------- known-finding classes (library level) *)
-(* C19-3: plugins exists and is not an object: nothing is inserted *)
-Definition kf_plugins_not_object (doc : json) : bool :=
-  match doc with
-  | JObj kvs => match lookup "plugins" kvs with Some (JObj _) | None => false | Some _ => true end
-  | _ => false
-  end.
-(* C19-4: the root is a non-empty array: it is replaced by an object *)
-Definition kf_root_array (doc : json) : bool :=
-  match doc with JArr (_ :: _) => true | _ => false end.
-(* C19-5: a naming-convention setting differs from its default: neither written nor read *)
-Definition kf_case_dropped (c : config) : bool :=
-  negb (String.eqb (default_parameter_case c) (default_parameter_case dflt))
-  || negb (String.eqb (default_field_case c) (default_field_case dflt)).
 
 (* ---------------------------------------------------------------- files *)
 (* The part of the file system the command line tool looks at. Paths are relative to
@@ -296,13 +294,19 @@ Definition init_flags (il : iflags) : flags :=
      f_validation := Some (init_lib il); f_verbose := i_verbose il; f_visualize := i_visualize il;
      f_force := false |}.
 
-(* bin:288 run_init: the document is rewritten first, validation happens inside the
-   generation that follows *)
+(* bin run_init: the settings are validated before the document is touched; a document
+   the settings cannot be written into is an error as well *)
 Definition run_init (f : fs) (il : iflags) : result :=
   let t := init_target il in
-  match fs_get f t with
-  | Some (NDoc (Some d)) =>
-      run_generate (fs_put f t (NDoc (Some (save_doc (init_config il) d)))) (init_flags il)
-  | _ => RFail f
+  match validate f (init_config il) with
+  | Some e => RReject e f
+  | None =>
+      match fs_get f t with
+      | Some (NDoc (Some d)) =>
+          match save_doc (init_config il) d with
+          | Some d' => run_generate (fs_put f t (NDoc (Some d'))) (init_flags il)
+          | None => RFail f
+          end
+      | _ => RFail f
+      end
   end.
-
